@@ -22,6 +22,8 @@ CLAIMS = {
          "Dependencies are made to fail in every generated way at depth 1-4; the dependent must have no launch in the whole run and be reported Skipped with a non-zero code, transitively."),
  "C12": ("exploration", "3.C12", "seeded simulated runs with ordered shutdown; signal-instant vs dependents' death oracle",
          "For every stop signal delivered during an ordered shutdown the dependents that were running when the shutdown began must already be dead in the simulated process table; seeded DAG shapes, running subsets and termination lags."),
+ "C08": ("exploration", "3.C08", "seeded simulated runs with 2-4 concurrent client tasks; instance-overlap oracle at every launch (armed in every run of every property) and outcome-vs-activity oracle per request",
+         "Concurrent and duplicate start/stop/restart requests (unknown names included) are issued by several client tasks against processes that exit fast, die slowly, restart or wait for dependencies; at every launch no other command of the replica may be alive, a successful stop must end in termination without relaunch, start must succeed iff no instance is active."),
  "C09": ("exploration", "3.C09", "seeded simulated runs; every status transition observed synchronously; reported state vs simulated process table at every stable point",
          "Every transition (synchronous hook, not sampled) is checked against the legal relation and the reported state is compared with ground truth at every stable point of every run."),
 }
